@@ -50,7 +50,7 @@ pub const POOL_KANJI: &[char] = &['‰∫∫', 'Âú∞', 'ÁêÉ', 'ÁÅ´', '†Æ∑', '™úà', '„
 pub const POOL_OTHER: &[char] = &[
     ' ', '/', '\\', '-', '|', '„ÄÇ', '√©', 'œÄ', '‚Ç¨', '\r', '\n', '\u{200d}', 'üë®', 'üë©', 'üáØ', 'üáµ',
     '\u{3099}', '\u{0301}', '.', ',', '(', 'ÔΩ¢', 'ÔΩû', '\t', '\u{7f}', '\u{10ffff}', '"', '\'', '\u{b}', '\u{c}', '\u{85}', '\u{2028}', '\u{2029}', '\u{3000}',
-    '\u{a0}', '\u{1c}', '\u{1}',
+    '\u{a0}', '\u{1c}', '\u{1}', '\u{feff}',
 ];
 /// Characters that are harmless in every text format (no delimiter, no escape, no line break).
 pub const POOL_PLAIN_OTHER: &[char] = &['„ÄÇ', '√©', 'œÄ', '‚Ç¨', 'üë®', '\u{3099}', '.', ',', 'ÔΩû', '"'];
@@ -157,7 +157,7 @@ pub fn to_string(chars: &[char]) -> String {
 
 /// Hostile string for parsers: any Unicode incl. NUL, escapes and delimiters with high density.
 pub fn hostile_string(rng: &mut Rng, max_len: usize) -> String {
-    const DENSE: &[char] = &[' ', '/', '\\', '-', '|', '\0', 'a', '„ÅÇ', '†Æ∑', '\n', '√©', '„Ç¢', '1'];
+    const DENSE: &[char] = &[' ', '/', '\\', '-', '|', '\0', 'a', '„ÅÇ', '†Æ∑', '\n', '√©', '„Ç¢', '1', '\u{feff}', '\u{3000}'];
     let n = rng.below(max_len + 1);
     let mut s = String::new();
     for _ in 0..n {
